@@ -86,7 +86,7 @@ GElf_Sym* gelf_getsym(Elf_Data*, int idx, GElf_Sym* dst)
       && ((dst->st_info >> 4) <= STB_WEAK || (dst->st_info >> 4) == STB_GNU_UNIQUE);
   return dst;
 }
-const char* elf_strptr(Elf*, size_t, size_t)
+char* elf_strptr(Elf*, size_t, size_t)   // as in libelf: char*
 {
   if (nondet_int()) return 0;
   if (gh_cur_idx == gh_w) gh_w_name_ok = 1;
